@@ -54,6 +54,7 @@ type c31Stats struct {
 	Violations  []c31Witness     `json:"violations"`
 	Samples     []map[string]any `json:"samples"`
 	HarnessErrs []string         `json:"harness_errors"`
+	Next        uint64           `json:"next"` // checkpoints: first case index not covered by these numbers
 }
 
 type c31Witness struct {
